@@ -9,7 +9,7 @@ E1_NOTE = ("Trusted base: the hand-written explorer (mc/src/netmc.rs) and the ho
 E1_TECH = "explicit-state model checking of the implementation: breadth-first closure of the delivery/duplication/call-result schedule graph, each transition one real execute_air call"
 
 CHECKS = {
- "C02": ("model_checking", "7 C02", "Outcome contract evaluated on every distinct run of every schedule of the STREAM, MAP and ERR families (honest histories incl. catchable and uncatchable script errors); tampered/malformed inputs are covered by the C01/C14 sweeps which apply the same contract."),
+ "C02": ("model_checking", "7 C02 and 11.5", "Outcome contract evaluated on every distinct run of every schedule of the ERR, STREAM and MAP families: honest histories with catchable errors (10000-10011) and one uncatchable script error (scalar shadowing, 20007) for which previous data, no next peers and no requests are demanded. Preparation errors, code 30000 and tampered or malformed current data do not occur in these histories and are not covered."),
  "C03": ("model_checking", "7 C03", "DataVerify (decode, version, CID stores, every trace CID resolvable, every peer's signature) plus operational acceptance by a non-participating peer, on every data produced in every schedule of STREAM, MAP, ERR."),
  "C04": ("model_checking", "7 C04", "Every run of every schedule (reorder, duplicate, stale, partial/batched results) checked against the forbidden data-consistency codes."),
  "C07": ("model_checking", "7 C07", "Four re-delivery runs per distinct non-failing run; trace equality, no requests, no next peers."),
@@ -17,6 +17,30 @@ CHECKS = {
  "C10": ("model_checking", "7 C10", "Independent recursive-descent TraceGrammar reads every produced trace."),
  "C12": ("model_checking", "7 C12", "Generation order of content-identified stream values across every consecutive data pair of a peer in every schedule."),
  "C20": ("model_checking", "7 C20", "Every distinct run of the exploration re-executed; decoded outcomes compared."),
+ "C05": ("model_checking", "7 C05", "Ghost multisets of issued and answered requests carried in the explored state: at-most-once issue on every transition of every schedule, every answered result present exactly once in every later data of the peer (SEQ, STREAM, MAP families)."),
+ "C06": ("model_checking", "7 C06", "Request ids against a ghost per-peer maximum on every transition; downstream argument values against the sequential reference (routing); one result under a non-pending id on every path (unknown, stale, consumed, 2^32-1) must come back as code 30000 and change nothing."),
+ "C08": ("model_checking", "7 C08", "For every quiescent state and every state up to depth 3 of every schedule graph: the peers' data merged in every order and in right-nested groupings at observers and at participating peers; same results by content id, identical traces modulo request senders for stream-free scripts."),
+ "C11": ("model_checking", "7 C11", "Per explored state all data of the history bind one canon result per canon site and all consumers see one value; per first canonicalization its elements equal the stream writes replayed/performed before it in that run."),
+ "C13": ("model_checking", "7 C13", "Local canonicalization as observation point of the stream content on every run; visit calls of stream folds counted per value and peer in every state (at most once) and compared with the merged stream at every quiescent state, including the bounded recursive stream."),
+ "C16": ("model_checking", "7 C16", "Every call request of every schedule of every SEQ-family script compared (peer, service, function, argument values) with the call multiset of an independent sequential evaluator; all graphs closed."),
+ "C17": ("model_checking", "7 C17", "Tetraplets of every argument of every distinct call request in every schedule compared with the sequential reference (SEQ) or with the producer embedded in the value by the service oracle (STREAM/MAP)."),
+ "C19": ("model_checking", "7 C19", "Per run: requests only for calls addressed to the peer, next peers without self or duplicates, newly sent marks imply next peers; per quiescent state: all data merged at an observer hold no sent-but-unexecuted entry. One known finding (cross-par data dependency) is listed in known_findings.json."),
+ "C25": ("exploration", "7 C25", "Finite universe of JSON values (boundary numbers, escaped and non-ASCII strings, nesting to depth 3) x a catalogue of id mutations (listed with accept/reject counts in the evidence), enumerated completely; ids compared with an independent framing, verification verdicts with the accept-iff rule of the statement."),
+ "C26": ("exploration", "7 C26", "The same finite universe enumerated completely: conversion, printing, parsing, accessors, navigation and (all ordered pairs of a sub-universe) equality compared with serde_json."),
+}
+E2_NOTE = ("Trusted base: serde_json as the reference JSON implementation, sha2 and fluence-blake3 as hash functions, the 60-line reference CID framing in mc/src/e2.rs; "
+           "bounds: the finite value universe and mutation catalogue of DESIGN.md 11.4 (no sampling; values outside the universe are not covered).")
+NOT_BUILT = {
+ "C01": "no check claimed: the fault-enumeration sweep (isolated worker, JSON-tree tamper pipeline) designed in DESIGN.md 7 C01 was not built in the time available; the six crash sites reproduced by hand in the design phase are described there",
+ "C14": "no check claimed: the tamper catalogue of DESIGN.md 7 C14 was not built in the time available",
+ "C15": "no check claimed: the fork/equivocation enumeration of DESIGN.md 7 C15 was not built in the time available",
+ "C18": "no check claimed: the caught/uncaught comparison of DESIGN.md 7 C18 was not built in the time available",
+ "C21": "no check claimed: the version-grid enumeration of DESIGN.md 7 C21 was not built in the time available",
+ "C22": "no check claimed: the limit-grid enumeration of DESIGN.md 7 C22 was not built in the time available",
+ "C23": "no check claimed: the ScopeCheck reference and script/text enumeration of DESIGN.md 7 C23 were not built in the time available (the out-of-scope iterator acceptance found by hand is described there)",
+ "C24": "no check claimed: the lens enumeration of DESIGN.md 7 C24 was not built in the time available",
+ "C27": "no check claimed: the encoding round-trip enumeration of DESIGN.md 7 C27 was not built in the time available",
+ "C28": "no check claimed: the BeautyReader comparison of DESIGN.md 7 C28 was not built in the time available",
 }
 
 checks = []
@@ -29,10 +53,11 @@ for pid, (cat, ref, text) in CHECKS.items():
         "replay_cmd_template": f"bin/check {pid} --replay {{path}}",
         "engine": "mc",
         "level_claimed": {"category": cat, "text": text, "design_ref": f"DESIGN.md section {ref}"},
-        "level_note": E1_NOTE,
+        "level_note": E1_NOTE if cat == "model_checking" else E2_NOTE,
         "technique": E1_TECH if cat == "model_checking" else "bounded-exhaustive enumeration of a finite input/fault space against a reference model",
     })
-na = [{"property_id": p['id'], "reason": "check not built yet (work in progress)"} for p in props if p['id'] not in CHECKS]
+na = [{"property_id": p['id'], "reason": NOT_BUILT[p['id']]} for p in props if p['id'] not in CHECKS]
+checks.sort(key=lambda c: c["property_id"])
 m = {
  "version": 1,
  "setup_cmd": "bin/setup",
